@@ -21,13 +21,15 @@ import vlib
 
 
 def body(c):
+    if D.handle_replay(c):
+        return
     q = c.quick
     D.model_check(c, "Bloom-6bit", "Bloom_MC",
                   D.cfg_text("Spec", {"B": 8, "MinBits": 8, "MaxKeys": 2, "BPKs": {0, 5, 44} if q else {0, 1, 5, 10, 22, 44, 100}},
                              ["NFN", "InRange", "Shape"] + ([] if q else ["Necessary"])), timeout=900)
     if not q:
         D.model_check(c, "Bloom-6bit-3keys", "Bloom_MC",
-                      D.cfg_text("Spec", {"B": 8, "MinBits": 8, "MaxKeys": 3, "BPKs": {1, 10, 44}}, ["NFN", "InRange", "Shape"]), timeout=1100)
+                      D.cfg_text("Spec", {"B": 8, "MinBits": 8, "MaxKeys": 3, "BPKs": {10}}, ["NFN", "InRange", "Shape"]), timeout=1100)
         D.model_check(c, "Bloom-closed-form", "Bloom_MC",
                       D.cfg_text("Spec", {"B": 8, "MinBits": 8, "MaxKeys": 1, "BPKs": {1}}, ["AddMulIsLoop"]), timeout=600)
     gen = {"B": 65536, "MinBits": 64, "MaxN": 2 if q else 3, "BPKs": {0, 1, 3, 10, 43, 44, 100} if q else {0, 1, 2, 3, 10, 22, 43, 44, 45, 100},
@@ -36,10 +38,10 @@ def body(c):
     _, st, ev = D.replay(c, "bloom", cases, "bloom-32bit", c.seed, timeout=600)
     # table level: DoesNotHave for every key of every table
     big = dict(NKeys=5, NVers=3, MaxEntries=12, MaxTables=4, OpLen=3, Dirs={False}, Shaped=True, Incremental=True)
-    sim = D.generate(c, "tables-5x3", "TableOpsGen", D.cfg_text("GenSpec", big, ["Emit"]), simulate=300 if q else 8000,
+    sim = D.generate(c, "tables-5x3", "TableOpsGen", D.cfg_text("GenSpec", big, ["Emit"]), simulate=300 if q else 4000,
                      depth=30, seed=c.seed, timeout=600)
     groups = D.group_by(sim, ["tabs", "meta"], lambda x: {"rev": x["rev"], "ops": x["ops"]})
-    _, st2, ev2 = D.replay(c, "table", groups, "tables-with-bloom", c.seed, variants=2 if q else 6, extra=["-bloom"], timeout=900)
+    _, st2, ev2 = D.replay(c, "table", groups, "tables-with-bloom", c.seed, variants=2 if q else 4, extra=["-bloom"], timeout=900)
     nontrivial = [x for x in cases if len(x["hs"]) >= 2 or x["bpk"] >= 10]
     keys = set(D.json.dumps([x["hs"][:50], len(x["hs"]), x["bpk"]]) for x in nontrivial)
     keys |= set("T" + D.json.dumps(g["tabs"]) for g in groups if sum(len(t) for t in g["tabs"]) >= 2)
